@@ -1,0 +1,12 @@
+//go:build verif
+
+// Contracts for the content repository (files on disk), read by /verif/govc.
+package content
+
+// bufWriter keeps a private copy of the chunk it hands to the file, so that on an out-of-space
+// error exactly that chunk can be replayed into another directory: after Write the kept
+// buffer is the chunk, no more and no less.
+//@ func (*bufWriter).Write
+//@   requires nn:   w != nil && w.w != nil
+//@   ensures  len:  len(w.buf) == len(p)
+//@   ensures  same: forall i int :: 0 <= i && i < len(p) ==> w.buf[i] == old(p[i])
